@@ -271,10 +271,11 @@ theorem deficient_not_valid (Lx Ly Lz : Nat) (h : Deficient Lx Ly Lz) :
     where the triangle of axis 3 or 2 is not listed (the row `y = 2Ly−2` and the vertices next to the
     hole); of axis 0 those of the last column `x = 2Lx−2`, the upper one (`(x+y+z) % 4 = 2`, `z ≥ 2`) of
     the two that share a z edge, the lower one where the upper one is not listed, and the lower ones
-    `(0, 2, 2, z)`, `z % 4 = 0`, `8 ≤ z ≤ 2Lz−6`, along the hole edge `x = y = 3` when `Lx, Ly ≥ 4` — are
-    independent: every non-empty duplicate-free sub-family has a Pauli operator on the qubits
-    anticommuting with an odd number of its members (a triangular family of probes: single qubits,
-    and `X(3,2,z) X(4,2,z−1) X(3,2,z−2)` for the triangles along the hole edge) -/
+    `(0, 2, 2, z)`, `z % 4 = 0`, `8 ≤ z ≤ 2Lz−6`, along the hole edge `x = y = 3` when `Lx, Ly ≥ 4` or `Lx = 3`,
+    `Ly ≥ 5` — are independent: every non-empty duplicate-free sub-family has a Pauli operator on the
+    qubits anticommuting with an odd number of its members (a triangular family of probes: single
+    qubits, and `X(3,2,z) X(4,2,z−1) X(3,2,z−2)` / `X(2,3,z) X(2,4,z−1) X(2,3,z−2)` for the triangles
+    along the hole edge) -/
 theorem generators_independent (Lx Ly Lz : Nat) (hy : 1 ≤ Ly) :
     Lat2D.IndepGenerators (lattice Lx Ly Lz) (rankFamily Lx Ly Lz) :=
   indep_rankFamily Lx Ly Lz hy
@@ -284,12 +285,13 @@ theorem generators_listed (Lx Ly Lz : Nat) :
     (rankFamily Lx Ly Lz).Nodup ∧ ∀ s ∈ rankFamily Lx Ly Lz, s ∈ (lattice Lx Ly Lz).stabs :=
   ⟨nodup_rankFamily Lx Ly Lz, fun _ hs => rankFamily_sub hs⟩
 
-/-- the non-deficient sizes of the family for which the family is NOT yet counted: a hole one layer
-    thin in `z` and at least two unit cells wide in `x` and `y` (`Lz = 4`, `Lx ≥ 4`, `Ly ≥ 5`; the sizes with
-    `Lx ≥ 5`, `Ly ≥ 6` among them are deficient), and `Lx = 3`, `Ly = 5`, `Lz ≥ 7`.  On these sizes
+/-- the sizes of the family for which the family is NOT counted: a hole one layer thin in `z` and at
+    least two unit cells wide in `x` and `y` (`Lz = 4`, `Lx ≥ 4`, `Ly ≥ 5`; the sizes with `Lx ≥ 5`, `Ly ≥ 6`
+    among them are deficient, the others — `(4, Ly ≥ 5, 4)` and `(Lx ≥ 5, 5, 4)` — are not).  On these sizes
     `rankFamily` is independent but has fewer than `n − 1` members (one fewer for every further pair of
-    triangles along a hole edge that would have to be kept, as along the edge `x = y = 3`) -/
-def Gap (Lx Ly Lz : Nat) : Prop := (Lz = 4 ∧ 4 ≤ Lx ∧ 5 ≤ Ly) ∨ (Lx = 3 ∧ Ly = 5 ∧ 7 ≤ Lz)
+    triangles along the hole edges `(3, ·, 3)`, `(·, 3, 3)` that would have to be kept, as is done along
+    the edge `(3, 3, ·)`) -/
+def Gap (Lx Ly Lz : Nat) : Prop := Lz = 4 ∧ 4 ≤ Lx ∧ 5 ≤ Ly
 
 instance (Lx Ly Lz : Nat) : Decidable (Gap Lx Ly Lz) := by unfold Gap; infer_instance
 
@@ -299,7 +301,7 @@ instance (Lx Ly Lz : Nat) : Decidable (Gap Lx Ly Lz) := by unfold Gap; infer_ins
     and that are not deficient -/
 def Covered (Lx Ly Lz : Nat) : Prop :=
   NoHole Lx Ly Lz ∨ (4 ≤ Lx ∧ 5 ≤ Ly ∧ 5 ≤ Lz) ∨ (Lx = 3 ∧ 4 ≤ Ly ∧ Lz = 5) ∨ (Lx = 3 ∧ Ly = 4 ∧ 5 ≤ Lz) ∨
-  (Lx = 3 ∧ Ly = 5 ∧ Lz = 6) ∨ (Lx = 4 ∧ Ly = 4 ∧ 5 ≤ Lz) ∨ (4 ≤ Lx ∧ Ly = 4 ∧ Lz = 5)
+  (Lx = 3 ∧ Ly = 5 ∧ 5 ≤ Lz) ∨ (Lx = 4 ∧ Ly = 4 ∧ 5 ≤ Lz) ∨ (4 ≤ Lx ∧ Ly = 4 ∧ Lz = 5)
 
 instance (Lx Ly Lz : Nat) : Decidable (Covered Lx Ly Lz) := by unfold Covered; infer_instance
 
@@ -346,13 +348,13 @@ theorem generators_count_partial (Lx Ly Lz : Nat) (h : Family Lx Ly Lz) (hd : ¬
   show (rankFamily Lx Ly Lz).length + 1 = (qubits Lx Ly Lz).length
   have hc := (covered_iff h).mpr ⟨hd, hg⟩
   obtain ⟨hx, hy, hz⟩ := h
-  rcases hc with hc | ⟨h1, h2, h3⟩ | ⟨e1, h2, e3⟩ | ⟨e1, e2, h3⟩ | ⟨e1, e2, e3⟩ | ⟨e1, e2, h3⟩ |
+  rcases hc with hc | ⟨h1, h2, h3⟩ | ⟨e1, h2, e3⟩ | ⟨e1, e2, h3⟩ | ⟨e1, e2, h3'⟩ | ⟨e1, e2, h3⟩ |
     ⟨h1, e2, e3⟩
   · exact noHole_count hc hx hy (by omega)
   · exact thick_count h1 h2 h3
   · rw [e1, e3]; exact count_3_L_5 Ly h2
   · rw [e1, e2]; exact count_3_4_L Lz h3
-  · rw [e1, e2, e3]; exact count_3_5_6
+  · rw [e1, e2]; exact count_3_5_L Lz h3'
   · rw [e1, e2]; exact count_4_4_L Lz h3
   · rw [e2, e3]; exact count_L_4_5 Lx h1
 
@@ -367,11 +369,11 @@ theorem n_cubes (Lx Ly Lz : Nat) :
   simpa using this
 
 /-- THE C01 STATEMENT, POSITIVE SIDE (partial): for every size of the supported family that is not
-    deficient and not in the gap (`Gap`: `Lz = 4 ∧ Lx ≥ 4 ∧ Ly ≥ 5`, or `Lx = 3 ∧ Ly = 5 ∧ Lz ≥ 7`) the matrices
+    deficient and not in the gap (`Gap`: `Lz = 4 ∧ Lx ≥ 4 ∧ Ly ≥ 5`) the matrices
     that `stabilizer_matrix`, `logicals_x`, `logicals_z` of the generic code model assemble from this
     lattice model form a valid `[[n, 1]]` stabilizer code — commutation, pairing and GF(2) rank `n − 1`.
-    MISSING for `valid_code` on every non-deficient size: the three one-parameter families
-    `(4, Ly ≥ 5, 4)`, `(Lx ≥ 5, 5, 4)`, `(3, 5, Lz ≥ 7)` of the gap (measured: rank `n − 1` there too) -/
+    MISSING for `valid_code` on every non-deficient size: the two one-parameter families
+    `(4, Ly ≥ 5, 4)`, `(Lx ≥ 5, 5, 4)` of the gap (measured: rank `n − 1` there too) -/
 theorem valid_code_partial (Lx Ly Lz : Nat) (h : Family Lx Ly Lz) (hd : ¬ Deficient Lx Ly Lz)
     (hg : ¬ Gap Lx Ly Lz) :
     stabilizerMatrix (lattice Lx Ly Lz).toCodeData = some (lattice Lx Ly Lz).rowsH ∧
@@ -419,9 +421,9 @@ example : (lattice 2 2 3).getStab [1, -1, 1] = [([2, 0, 1], .X), ([1, 0, 2], .X)
   decide
 
 example : Covered 2 2 3 ∧ Covered 7 3 9 ∧ Covered 4 5 5 ∧ Covered 6 9 8 ∧ Covered 3 5 5 ∧ Covered 4 4 9 ∧
-    Covered 3 9 4 ∧ Covered 9 4 4 ∧ Covered 3 9 5 ∧ ¬ Covered 3 6 6 ∧ ¬ Covered 4 5 4 ∧ ¬ Covered 3 5 7 := by
+    Covered 3 9 4 ∧ Covered 9 4 4 ∧ Covered 3 9 5 ∧ Covered 3 5 11 ∧ ¬ Covered 3 6 6 ∧ ¬ Covered 4 5 4 := by
   decide
-example : Gap 4 5 4 ∧ Gap 3 5 7 ∧ ¬ Gap 3 5 6 ∧ ¬ Gap 3 9 4 := by decide
+example : Gap 4 5 4 ∧ Gap 7 5 4 ∧ ¬ Gap 3 5 7 ∧ ¬ Gap 3 9 4 := by decide
 /-- a size with a thick hole: 520 qubits, rank 519 -/
 example : HasRank (2 * (lattice 6 5 8).toCodeData.n) (lattice 6 5 8).rowsH
     ((lattice 6 5 8).toCodeData.n - 1) ∧ (lattice 6 5 8).toCodeData.n = 520 :=
